@@ -174,7 +174,8 @@ def limits (L : Lits α) (P : Params α) (s : State α) : Sum (State α × α ×
     else
       let factor := stepToEnd / s2.h
       let s3 := { s2 with h := s2.h * factor, nEqual := 0, luCurrent := false }
-      .inl (s3, P.direction * s3.h, s3.x + P.direction * s3.h)
+      -- the landing step ends at xend itself (`x_new = xend`)
+      .inl (s3, P.direction * s3.h, P.xend)
   else .inl (s2, hSigned, xNew)
 
 /-- `ModifiedSolution`: one more evaluation, restart at order 1 with a fresh Jacobian -/
